@@ -604,7 +604,8 @@ Inductive cop :=
 | OPostNewest                        (* a client lists the threads and posts to the newest one *)
 | OBranch (th : nat)
 | OHandoff (th : nat)
-| ORead (th : nat).                  (* replay_events (status / cut points / stream replay) *)
+| ORead (th : nat)                   (* replay_events (status / cut points / stream replay) *)
+| OTaskEmit (t : etype).             (* TaskEmitter::emit on THE task of the case (stream id 0) *)
 
 Definition prog_of_cop (l : log) (o : cop) : list mstep :=
   match o with
@@ -613,6 +614,7 @@ Definition prog_of_cop (l : log) (o : cop) : list mstep :=
   | OBranch th => [MTarget (nth_thread l th); MRead] ++ lineage_prog EContinuityBranched [] []
   | OHandoff th => [MTarget (nth_thread l th); MRead] ++ lineage_prog EContinuityHandoffCreated [] []
   | ORead th => [MTarget (nth_thread l th); MRead]
+  | OTaskEmit t => task_emit t
   end.
 
 (* the same calls as the code was before the S5 repair *)
